@@ -123,14 +123,17 @@ def execute(chk, drv, cases, seed):
             raise vlib.Inconclusive("in-package driver %s (%s) failed (rc=%s timeout=%s); a panic outside the calling goroutine "
                                     "would show here:\n%s" % (site, pkg, r.rc, r.timed_out, r.out[-3000:]))
         summary = None
+        reported = 0
         for res in vlib.read_ndjson(outp):
             if "summary" in res:
                 summary = res["summary"]
                 continue
             if res.get("sig", "").startswith("harness:"):
                 raise vlib.Inconclusive("in-package driver %s: %s" % (site, res.get("detail")))
-            chk.violation(res.get("sig", "unknown"), res.get("detail", ""),
-                          {"site": res.get("site", site), "case": res.get("case"), "idx": res.get("idx")})
+            if reported < 8 or any(k.get("key") == res.get("sig") for k in chk.known):
+                if chk.violation(res.get("sig", "unknown"), res.get("detail", ""),
+                                 {"site": res.get("site", site), "case": res.get("case"), "idx": res.get("idx")}):
+                    reported += 1
         want = ndoc + ntext if site == "proxy" else ndoc
         if summary is None or int(summary.get("cases", -1)) != want:
             raise vlib.Inconclusive("in-package driver %s executed %s cases, expected %d" % (site, summary, want))
